@@ -392,6 +392,59 @@ def run_rng(ctx, i, rng):
       ctx.check(not exact(inst.apply(vp, x, rngs=rngs2), outs[0]), 'rng:jit_ignores_rngs', lambda: dict(case=desc))
 
 
+def run_cond_rng(ctx, i, rng):
+  """Branches of nn.cond / nn.switch that draw random numbers (the same number of draws in every branch): the taken branch and
+  the code after the conditional use the draws the equivalent Python `if` / indexing uses - each branch starts from the rng
+  counters the conditional was entered with."""
+  import jax
+  import jax.numpy as jnp
+  import flax.linen as nn
+  kind = ['cond', 'switch'][i % 2]
+  n_branches = 2 if kind == 'cond' else 3
+  sel = (i // 2) % n_branches
+  draws = 1 + (i // 6) % 2
+  child = (i // 12) % 2 == 1     # the draw is made by a sub-module created inside the branch
+  pre = (i // 24) % 2            # draws before the conditional
+  desc = dict(kind=kind, selected=sel, draws_per_branch=draws, draw_in_child=child, draws_before=pre)
+  with ctx.case('cond_rng', i, desc, nontrivial=True):
+    class Noise(nn.Module):
+      @nn.compact
+      def __call__(self, x):
+        return jax.random.normal(self.make_rng('dropout'), x.shape)
+
+    def mk(k):
+      def branch(m, x):
+        for j in range(draws):
+          n = Noise(name='n%d_%d' % (k, j))(x) if child else jax.random.normal(m.make_rng('dropout'), x.shape)
+          x = x * (k + 2.0) + n
+        return x
+      return branch
+    fns = [mk(k) for k in range(n_branches)]
+
+    class M(nn.Module):
+      lifted: bool
+
+      @nn.compact
+      def __call__(self, x):
+        for _ in range(pre):
+          x = x + jax.random.normal(self.make_rng('dropout'), x.shape)
+        if not self.lifted:
+          y = fns[(1 - sel) if kind == 'cond' else sel](self, x)      # cond: index 0 is the TRUE branch
+        elif kind == 'cond':
+          y = nn.cond(jnp.asarray(sel == 1), fns[0], fns[1], self, x)
+        else:
+          y = nn.switch(jnp.asarray(sel), fns, self, x)
+        return y, jax.random.normal(self.make_rng('dropout'), x.shape)
+
+    x = jnp.ones((3,)) * (1 + i % 3)
+    rngs = {'dropout': jax.random.key(100 + i)}
+    yp, zp = M(False).apply({}, x, rngs=rngs)
+    yl, zl = M(True).apply({}, x, rngs=rngs)
+    ctx.op('nn.%s(branches draw rngs)' % kind)
+    ctx.check(close(yp, yl), 'rng:%s_branch_draws_differ_from_python' % kind, lambda: dict(case=desc, python=np.asarray(yp).tolist(), lifted=np.asarray(yl).tolist()))
+    ctx.check(close(zp, zl), 'rng:draw_after_%s_differs_from_python' % kind, lambda: dict(case=desc, python=np.asarray(zp).tolist(), lifted=np.asarray(zl).tolist()))
+
+
 def run_history(ctx, i, rng):
   """Stale-trace probe: one lifted instance is called repeatedly while mutable / variable structure change; a sibling instance with
   a different attribute must not reuse the trace."""
@@ -828,6 +881,8 @@ def run(ctx):
   ctx.event('kinds_covered', len(KINDS))
   for i in ctx.indices(24 if ctx.tier == 'quick' else 160, 'rng'):
     run_rng(ctx, i, ctx.rng('rng', i))
+  for i in ctx.indices(48 if ctx.tier == 'quick' else 96, 'cond_rng'):
+    run_cond_rng(ctx, i, ctx.rng('cond_rng', i))
   for i in ctx.indices(30 if ctx.tier == 'quick' else 300, 'history'):
     run_history(ctx, i, ctx.rng('history', i))
   for i in ctx.indices(18 if ctx.tier == 'quick' else 72, 'jit_kwargs'):
